@@ -73,19 +73,34 @@ def Literal_hash(self: "Lit") -> "int":
 
 # ---------------------------------------------------------------------------------------------- records
 @spec
-def AttrsWF(r: "ProvRecord") -> "bool":
-    """representation invariant of the attribute table: key objects carry their key's URI, value sets are
-    well-formed, representatives carry their canonical key"""
+def AttrsKeysWF(r: "ProvRecord") -> "bool":
     return forall(
         lambda u: vs_wf(qm_get(r._attributes, u)) and implies(qm_has(r._attributes, u), qm_key(r._attributes, u).uri == u),
-        "str") and forall(
+        "str")
+
+
+@spec
+def AttrsRepsWF(r: "ProvRecord") -> "bool":
+    return forall(
         lambda u, c: implies(vs_has(qm_get(r._attributes, u), c),
                              same(ck(vs_rep(qm_get(r._attributes, u), c)), c) and vs_n(qm_get(r._attributes, u)) > 0),
-        "str", "Val") and forall(
-        # the size field is the cardinality: a set of size <= 1 has at most one member
+        "str", "Val")
+
+
+@spec
+def AttrsSizeWF(r: "ProvRecord") -> "bool":
+    # the size field is the cardinality: a set of size <= 1 has at most one member
+    return forall(
         lambda u, c1, c2: implies(vs_n(qm_get(r._attributes, u)) <= 1 and vs_has(qm_get(r._attributes, u), c1)
                                   and vs_has(qm_get(r._attributes, u), c2), same(c1, c2)),
         "str", "Val", "Val")
+
+
+@spec
+def AttrsWF(r: "ProvRecord") -> "bool":
+    """representation invariant of the attribute table: key objects carry their key's URI, value sets are
+    well-formed, representatives carry their canonical key"""
+    return AttrsKeysWF(r) and AttrsRepsWF(r) and AttrsSizeWF(r)
 
 
 @spec
@@ -230,11 +245,13 @@ def ProvBundle_eq(self: "ProvBundle", other: "Val") -> "bool":
               forall(lambda k: os_has(other_records, k) == (os_has(entry("other_records"), k)
                                                             and not exists(lambda j: 0 <= j and j < _i and same(rkey(_elem(j)), k), "int")), "RKey"))
     invariant("L1", "other-representatives-kept", same(os_rep(other_records), os_rep(entry("other_records"))))
+    # (three separate clauses: the conjunction under one quantifier took 10-40 s, each part takes about a second)
     invariant("L1", "other-members-are-others-records",
-              forall(lambda k: implies(os_has(other_records, k),
-                                       seq_has(other._records, os_rep(other_records, k))
-                                       and same(rkey(os_rep(other_records, k)), k)
-                                       and AttrsWF(os_rep(other_records, k))), "RKey"))
+              forall(lambda k: implies(os_has(other_records, k), seq_has(other._records, os_rep(other_records, k))), "RKey"))
+    invariant("L1", "other-members-are-keyed-by-their-record-key",
+              forall(lambda k: implies(os_has(other_records, k), same(rkey(os_rep(other_records, k)), k)), "RKey"))
+    invariant("L1", "other-members-are-well-formed",
+              forall(lambda k: implies(os_has(other_records, k), AttrsWF(os_rep(other_records, k))), "RKey"))
     invariant("L2", "not-found-yet", not found)
     invariant("L2", "other-unchanged", same(other_records, entry("other_records")))
     invariant("L2", "none-equal-so-far",
